@@ -197,6 +197,27 @@ class Ctx:
         _TASKS = None
         return out
 
+    def parallel_sections(self, sections, nproc=None):
+        """Run independent parts of a check in forked children.  section = (name, fn(subctx)).
+        Children record queries etc. on a sub-context; violations are collected and replayed
+        by the parent (replay functions must be module-level)."""
+        import multiprocessing as mp
+        global _SECTIONS
+        _SECTIONS = (self, sections)
+        nproc = nproc or min(len(sections), os.cpu_count() or 1)
+        with _NoDaemonPool(nproc) as pool:
+            raw = pool.map(_run_section, range(len(sections)), chunksize=1)
+        _SECTIONS = None
+        for (name, _), d in zip(sections, raw):
+            for k in ("queries", "inconclusive", "fidelity", "bounds", "assumptions", "stubs", "outside", "notes", "functions", "samples"):
+                getattr(self, k).extend(d[k])
+            self.paths += d["paths"]
+            self.branches += d["branches"]
+            for h in d["harness_errors"]:
+                self.harness_error("[%s] %s" % (name, h))
+            for (key, what, data, fn) in d["violations"]:
+                self.violation(key, what, data, fn)
+
     def witness(self, name, formulas, ex=None, timeout=None, expect="sat"):
         """A reachability / sanity twin: ``formulas`` must be satisfiable."""
         timeout = timeout or min(self.default_timeout, 60)
@@ -314,6 +335,75 @@ class Ctx:
 
 
 _TASKS = None
+_SECTIONS = None
+
+
+class _NoDaemonPool:
+    """A process pool whose workers may fork pools of their own (query_many inside a section)."""
+
+    def __init__(self, n):
+        import multiprocessing as mp
+        import multiprocessing.pool
+
+        class NoDaemonProcess(mp.get_context("fork").Process):
+            @property
+            def daemon(self):
+                return False
+
+            @daemon.setter
+            def daemon(self, v):
+                pass
+
+        class Ctxt(type(mp.get_context("fork"))):
+            Process = NoDaemonProcess
+
+        class Pool(multiprocessing.pool.Pool):
+            def __init__(self, *a, **k):
+                k["context"] = Ctxt()
+                super().__init__(*a, **k)
+        self.pool = Pool(n)
+
+    def __enter__(self):
+        return self.pool
+
+    def __exit__(self, *a):
+        self.pool.close()
+        self.pool.join()
+
+
+def _run_section(i):
+    ctx, sections = _SECTIONS
+    name, fn = sections[i]
+    sub = Ctx.__new__(Ctx)
+    sub.__dict__.update(ctx.__dict__)
+    for k in ("queries", "inconclusive", "fidelity", "bounds", "assumptions", "stubs", "outside", "notes", "functions", "samples",
+              "harness_errors", "replays"):
+        setattr(sub, k, [])
+    sub._vac_cache = {}
+    sub.paths = sub.branches = 0
+    viol = []
+    sub.harness_error = lambda msg: sub.harness_errors.append(msg)
+    sub.violation = lambda key, what, data, fn: (viol.append((key, what, _jsonable(data), fn)), True)[1]
+    try:
+        fn(sub)
+    except BaseException as e:  # noqa
+        traceback.print_exc()
+        sub.harness_errors.append("section %s: uncaught %s: %s" % (name, type(e).__name__, e))
+    d = {k: getattr(sub, k) for k in ("queries", "inconclusive", "fidelity", "bounds", "assumptions", "stubs", "outside", "notes",
+                                      "functions", "samples", "harness_errors", "paths", "branches")}
+    d["violations"] = viol
+    return _jsonable_keep(d)
+
+
+def _jsonable_keep(d):
+    """make everything picklable plain data except replay callables"""
+    out = {}
+    for k, v in d.items():
+        if k == "violations":
+            out[k] = v
+        else:
+            out[k] = _jsonable(v) if not isinstance(v, int) else v
+    return out
 
 
 def _run_task(i):
